@@ -345,6 +345,7 @@ int main(int argc, char** argv) {
 def jobs(tier):
     js = [(h_inputbuffer, (mth,), 600) for mth in ('read', 'seek', 'skip')]
     js += [(h_outbuf_write, (t, 2), 600) for t in WRITE_TYPES]
+    js += [(h_outbuf_add, (o, w), 900) for o in (('int64', 'float64', 'float32', 'uint8') if tier == 'quick' else sorted(ADD_OUT)) for w in (32, 64)]
     # h_outbuf_write_one is not scheduled: the FP growth loop of maybe_resize costs ~15 min of branch-feasibility queries and stays inconclusive
     for T in (32, 64):
         for w in WORDS:
@@ -517,3 +518,98 @@ int main(int argc, char** argv) {
         return False, 'native run satisfies the postconditions', payload
     return mdischarge(m, 'ForthOutputBufferOf<int64_t>::write_%s n=%d' % (typ, n), obls, [('byteswap requested', bswap == 1)], timeout_ms=60000, replay=replay,
                       extra=dict(bounds='n=%d items, all values, buffer with room (no growth)' % n))
+
+
+ADD_OUT = {'int64': ('l', ('i', 64), 'int64_t'), 'int32': ('i', ('i', 32), 'int32_t'), 'uint8': ('h', ('i', 8), 'uint8_t'), 'uint64': ('m', ('i', 64), 'uint64_t'),
+           'float64': ('d', ('f', 64), 'double'), 'float32': ('f', ('f', 32), 'float')}
+
+
+@guard
+def h_outbuf_add(out, width):
+    """ForthOutputBufferOf<OUT>::write_add_int32 / write_add_int64 (the `out +<- stack` word) from an arbitrary buffer state with room: the new
+    item is the previous last item (0 for an empty buffer) plus the value, the sum taken in the output type - exactly, so a fractional
+    previous item of a floating-point output keeps its fraction - earlier items are unchanged, length grows by one"""
+    from .mharness import stub_noop
+    code, kind, ct = ADD_OUT[out]
+    m = MCtx([FOB], unwind=6, stubs={'awkward_free': stub_noop})
+    length = m.bv('length')
+    value = m.bv('value', width)
+    m.assume(length >= 0, length <= 2 ** 40)
+    reserved = length + 3
+    buf = m.array('obuf', kind, reserved)
+    this = m.record('ob', {0: (NULL, 8), 8: (length, 8), 16: (reserved, 8), 24: (z3.FPVal(1.5, z3.Float64()), 8), 32: (buf, 8), 40: (NULL, 8)})
+    fn = '_ZN7awkward19ForthOutputBufferOfI%sE15write_add_int%dE%s' % (code, width, 'i' if width == 32 else 'l')
+    old = m.mem.o['obuf'].arr
+    m.call(fn, [this, value])
+    new = m.mem.o['obuf'].arr
+    L1 = m.cell('ob', 8)
+    prev_at = z3.Select(old, length - 1)
+    if kind[0] == 'i':
+        bits = kind[1]
+        v = value if bits == width else (z3.Extract(bits - 1, 0, value) if bits < width else z3.SignExt(bits - width, value))
+        prev = z3.If(length == 0, z3.BitVecVal(0, bits), prev_at)
+        want = prev + v
+        wrong = z3.Select(new, length) != want
+    else:
+        srt = z3.Float64() if kind[1] == 64 else z3.Float32()
+        prev = z3.If(length == 0, z3.FPVal(0.0, srt), prev_at)
+        want = z3.fpAdd(z3.RNE(), prev, z3.fpSignedToFP(z3.RNE(), value, srt))
+        got = z3.Select(new, length)
+        wrong = z3.Not(z3.Or(z3.fpToIEEEBV(got) == z3.fpToIEEEBV(want), z3.And(z3.fpIsNaN(got), z3.fpIsNaN(want))))
+    j = z3.BitVec('j', 64)
+    obls = [('length grows by one', L1 != length + 1),
+            ('the new item is the previous item plus the value, summed in the output type', wrong),
+            ('earlier items are unchanged', z3.And(j >= 0, j < length, z3.Select(new, j) != z3.Select(old, j)) if kind[0] == 'i' else
+             z3.And(j >= 0, j < length, z3.fpToIEEEBV(z3.Select(new, j)) != z3.fpToIEEEBV(z3.Select(old, j)), z3.Not(z3.fpIsNaN(z3.Select(old, j)))))]
+
+    def replay(model, ent):
+        ev = lambda e: model.eval(e, model_completion=True)
+        L = ev(length).as_signed_long()
+        val = ev(value).as_signed_long()
+        if kind[0] == 'i':
+            pbits = ev(prev_at).as_long() if L > 0 else 0
+        else:
+            pbits = ev(z3.fpToIEEEBV(prev_at)).as_long() if L > 0 else 0
+        Lr = min(L, 3)
+        nb = kind[1] // 8
+        drv = r"""
+#include <cstdio>
+#include <cstdlib>
+#include <cstring>
+#include <cmath>
+#include "awkward/forth/ForthOutputBuffer.h"
+using namespace awkward;
+typedef %(ct)s OUT;
+int main(int argc, char** argv) {
+  int L = atoi(argv[1]); unsigned long long pbits = strtoull(argv[2], nullptr, 10); long long val = atoll(argv[3]);
+  OUT prev = 0; memcpy(&prev, &pbits, sizeof(OUT));
+  ForthOutputBufferOf<OUT> b(L + 3, 1.5);
+  // the buffer is filled through its own typed writers, so the previous item has exactly the requested bit pattern
+  for (int i = 0; i < L; i++) { OUT x = (i == L - 1) ? prev : (OUT)7; b.write_one_%(one)s(x, false); }
+  b.write_add_int%(w)d((int%(w)d_t)val);
+  OUT* p = reinterpret_cast<OUT*>(b.ptr().get());
+  OUT base = (L == 0) ? (OUT)0 : prev;
+  volatile OUT want = base + (OUT)(int%(w)d_t)val;
+  OUT w2 = want;
+  int bad = 0;
+  if (b.len() != L + 1) bad |= 1;
+  if (memcmp(&p[L], &w2, sizeof(OUT)) != 0 && !(p[L] != p[L] && w2 != w2)) bad |= 2;
+  for (int i = 0; i + 1 < L; i++) if (p[i] != (OUT)7) bad |= 4;
+  printf("bad=%%d got=%%.17g want=%%.17g\n", bad, (double)p[L], (double)w2);
+  return bad ? 1 : 0;
+}
+""" % dict(ct=ct, w=width, one={'int64': 'int64', 'int32': 'int32', 'uint8': 'uint8', 'uint64': 'uint64', 'float64': 'float64', 'float32': 'float32'}[out])
+        exe = build.compile_objs_driver(drv, [FOB])
+        r = subprocess.run([exe, str(Lr), str(pbits), str(val)], capture_output=True, text=True, timeout=20,
+                           env=dict(os.environ, ASAN_OPTIONS='detect_leaks=0', UBSAN_OPTIONS='halt_on_error=1:exitcode=87'), errors='replace')
+        payload = dict(out=out, width=width, length=Lr, previous_bits=pbits, value=val, native=r.stdout.strip())
+        if r.returncode != 0:
+            return True, 'native ForthOutputBufferOf<%s>::write_add_int%d(%d) after an item with bits %#x: %s (2 = wrong sum) %s' % (
+                ct, width, val, pbits, r.stdout.strip(), [l for l in r.stderr.splitlines() if 'runtime error' in l or 'ERROR' in l][:1]), payload
+        return False, 'native run satisfies the postconditions: ' + r.stdout.strip(), payload
+    tw = [('non-empty buffer', length > 0)]
+    if kind[0] == 'f':
+        srt = z3.Float64() if kind[1] == 64 else z3.Float32()
+        tw.append(('fractional previous item', z3.And(length > 0, prev_at == z3.FPVal(2.5, srt))))
+    return mdischarge(m, 'ForthOutputBufferOf<%s>::write_add_int%d' % (ct, width), obls, tw, timeout_ms=120000, replay=replay,
+                      extra=dict(bounds='any previous item (any bit pattern), any value, 0 <= length_ <= 2^40, buffer with room (no growth)'))
